@@ -67,6 +67,12 @@ func main() {
 		}
 	}
 
+	// 0. corpus: minimised streams that once disagreed or violated
+	for _, c := range []string{"\xd8\x83\xb3", "a\xd8\x83\xff\x1b[A", "\xd8\x83\xb3\xa1\x86\xda\x9eR5!!\x1b[7:1;4{",
+		"\xef\xbf\xbd", "\x1b]0;t\x07\x1b\\x", "\x1b]a\x18\x1b\\", "\x1b(\x1b(B", "\x1bP1$r\x1b\\\x1b\\"} {
+		try([]byte(c), "corpus", true)
+	}
+
 	// 1. bounded-exhaustive over one representative per byte class
 	maxLen := 3
 	if cfg.Thorough() {
